@@ -24,6 +24,12 @@ def _fam(th):
            "If-Modified-Since absent or any time" + _b + _m, ("412-if-match", "304-inm", "200-inm", "304-ims", "200-ims", "200-plain")),
         _e("c14_merge", "cached 200 reply {Date, Content-Type, ETag \"a\", Content-Length 5, X-A old, X-C keep, Vary x-v}; origin 304 with a newer Date and one of: X-A: b b" + f("", " b") +
            " | x-a: b | X-B: b | ETag: '\"' b '\"' | X-A: old and the old Date (nothing new) | two lines X-A: b, X-A: 2 | Vary: x-w + X-A: b | Content-Length: 5" + _b, ("updated", "nothing-new")),
+        dict(name="c14_known_ims_without_lm", known=True, reach=[], max_samples=0, sample_every=0,
+             bounds="KNOWN FINDING C14-ims-without-last-modified only: cached 200 reply without ETag and without Last-Modified, entry timestamp any time 0..2^31-1, If-Modified-Since any time "
+                    "not earlier than the timestamp, method GET or HEAD; its violation is listed in known_findings.json and printed as KNOWN-FINDING"),
+        dict(name="c14_known_304_content_length", known=True, reach=[], max_samples=0, sample_every=0,
+             bounds="KNOWN FINDING C14-304-content-length only: the cached reply of c14_merge (Content-Length 5) and an origin 304 with a newer Date and 'Content-Length: ' d, d any digit but 5; "
+                    "its violation is listed in known_findings.json and printed as KNOWN-FINDING"),
     ]
 SPEC = dict(
     harness="C14_cond.cc", units=_U, unit_flags={"compat/xstring.cc": ["-Dxstrdup=vf_unused_squid_xstrdup"]},
@@ -58,9 +64,9 @@ SPEC = dict(
                  "yes/no only for lists whose members are all '*' or well-formed entity-tags without backslash (RFC 9110 has no escapes inside entity-tags, Squid's list splitter has) and for "
                  "a well-formed cached ETag; for other inputs only the 'only when' directions are asserted (no 304/412 without a possible match/failure)",
                  "only GET and HEAD requests are looked up in the cache (HttpRequestMethod::respMaybeCacheable()), so If-Modified-Since is exercised with these two methods only",
-                 "KNOWN-FINDING candidate excluded by vf_assume: a cached reply without Last-Modified answering If-Modified-Since >= StoreEntry::timestamp with 304 "
+                 "known finding C14-ims-without-last-modified (examined only by entry c14_known_ims_without_lm, excluded from the others by vf_assume): a cached reply without Last-Modified answering If-Modified-Since >= StoreEntry::timestamp with 304 "
                  "(StoreEntry::lastModified() falls back to the timestamp; RFC 9110 13.1.3: the field MUST be ignored when no modification date is available)",
-                 "KNOWN-FINDING candidate excluded by vf_assume: an origin 304 carrying a Content-Length different from the stored one replaces the stored Content-Length "
+                 "known finding C14-304-content-length (examined only by entry c14_known_304_content_length, excluded from the others by vf_assume): an origin 304 carrying a Content-Length different from the stored one replaces the stored Content-Length "
                  "(HttpHeader::update() exempts only Vary; RFC 9111 3.2 also exempts Content-Length), so later hits declare a length that is not the stored body's"],
     outside="entity-tags, lists and field sets other than the listed families; If-Unmodified-Since and If-Range (not evaluated by processConditional()); ranged requests; everything listed under gap",
 )
